@@ -268,8 +268,24 @@ def check(ctx):
     binds = [b for b in st.bindings.get(ft, []) if b[0] != "param"]
     ok = len(binds) == 1 and binds[0][0] == "assign" and isinstance(binds[0][1], ast.Call) and nf in m.callee_funcs(st, binds[0][1]) \
         and len(binds[0][1].args) == 1 and is_name(binds[0][1].args[0], ft)
-    ctx.ob("C18.Z1", f"{st.short}/{ft}-normalised", ok, loc(st), f"{ft} = normaliser({ft}) is its only rebinding" if ok else
-           f"{ft} is not normalised (or rebound otherwise) before use")
+    if not binds:
+        # the parameter keeps the caller's value: then every read of it must be the argument of the normaliser
+        # (the normalised value lives under another name)
+        loads = []
+        for f_ in [st] + list(rr.stale_closures):
+            if f_ is not st and ft in f_.params:
+                continue
+            for n_ in f_.own_nodes():
+                if isinstance(n_, ast.Name) and n_.id == ft and isinstance(n_.ctx, ast.Load):
+                    par = f_.module.parent.get(n_)
+                    loads.append(isinstance(par, ast.Call) and par in f_.own_calls() and nf in m.callee_funcs(f_, par) and par.args and par.args[0] is n_)
+        ok_alt = bool(loads) and all(loads)
+        ctx.ob("C18.Z1", f"{st.short}/{ft}-normalised", ok_alt, loc(st), f"every read of {ft} is normaliser({ft})" if ok_alt else
+               f"{ft} is not normalised (or rebound otherwise) before use")
+        ok = None
+    if ok is not None:
+        ctx.ob("C18.Z1", f"{st.short}/{ft}-normalised", ok, loc(st), f"{ft} = normaliser({ft}) is its only rebinding" if ok else
+               f"{ft} is not normalised (or rebound otherwise) before use")
     if ok:
         # the normalisation precedes the definition of the closures that use it and the engine call
         line = binds[0][1].lineno
